@@ -174,4 +174,65 @@ theorem parseInteger_eq_spec (s : List Char) : parseInteger s = Spec.signedConst
         rw [hs]
         simpa [parseInteger, hm, hp, Spec.constValue] using this
 
+/-! ### constants in an expression (`Tokens::next_token`) -/
+
+theorem fromStrRadix_nosign (ds : List Char) (radix : Nat)
+    (h : ds.head? ≠ some '-' ∧ ds.head? ≠ some '+') :
+    fromStrRadix ds radix = (parseNat radix ds).bind fun n => checked (n : Int) := by
+  unfold fromStrRadix
+  simp only [h.1, h.2, if_false]
+  cases parseNat radix ds <;> rfl
+
+theorem parseConstant_eq_radixSplit (token : List Char) :
+    parseConstant token = fromStrRadix (radixSplit token).1 (radixSplit token).2 := by
+  unfold parseConstant radixSplit
+  cases stripPrefix ['0', 'X'] token with
+  | some ds => rfl
+  | none =>
+    cases stripPrefix ['0', 'x'] token with
+    | some ds => rfl
+    | none =>
+      simp only
+      split <;> rfl
+
+theorem radixSplit_term (token : List Char) (hterm : ∀ c ∈ token, isTermChar c = true) :
+    ∀ c ∈ (radixSplit token).1, isTermChar c = true := by
+  unfold radixSplit stripPrefix
+  split
+  · rename_i ds h
+    split at h
+    · injection h with h; subst h
+      intro c hc; exact hterm c (List.mem_of_mem_drop hc)
+    · simp at h
+  · split
+    · rename_i ds h
+      split at h
+      · injection h with h; subst h
+        intro c hc; exact hterm c (List.mem_of_mem_drop hc)
+      · simp at h
+    · split <;> exact hterm
+
+/-- ☆ for every term made of term characters: the tokenizer's value of a numeric constant is the C value of
+    the literal (`0x`/`0X` hex, leading `0` octal, decimal), and there is NO value — a token error — exactly
+    when the literal is malformed or its value does not fit i64: never a wrapped value -/
+theorem parseConstant_eq_spec (token : List Char) (hterm : ∀ c ∈ token, isTermChar c = true) :
+    parseConstant token = Spec.constValue token := by
+  rw [parseConstant_eq_radixSplit]
+  unfold Spec.constValue
+  rw [constMagnitude_eq]
+  have hr := radixSplit_le token
+  have hds := radixSplit_term token hterm
+  generalize (radixSplit token).1 = ds at *
+  generalize (radixSplit token).2 = r at *
+  have hns : ds.head? ≠ some '-' ∧ ds.head? ≠ some '+' := by
+    cases ds with
+    | nil => simp
+    | cons a t =>
+      have ha := hds a (by simp)
+      simp only [List.head?_cons, ne_eq, Option.some.injEq]
+      exact ⟨fun e => by subst e; exact absurd ha (by decide), fun e => by subst e; exact absurd ha (by decide)⟩
+  have e : (fun n : Nat => checked (n : Int)) = fun n : Nat => Spec.represent (n : Int) :=
+    funext fun n => checked_eq_represent _
+  rw [fromStrRadix_nosign ds r hns, parseNat_eq r hr, e]
+
 end YashModel.Arith
